@@ -20,7 +20,7 @@
 EXTENDS Integers, Sequences, FiniteSets, TLC
 
 CONSTANTS NT, ND, NS,
-          Mut      \* "none" | "dropsI" | "noEmptyFlush" | "stale1hit": wrong variants TLC must refute
+          Mut      \* "none" | "dropsI" | "noEmptyFlush" | "noNilCard" | "stale1hit": wrong variants TLC must refute
 
 Terms == 0..(NT - 1)
 Docs == 0..(ND - 1)
@@ -110,7 +110,7 @@ Impl(ins) ==
                                LET kk == foc[e.lows[j]]
                                    dr == IF Mut = "dropsI" THEN (IF j <= Len(foc) THEN ins[foc[j]].drops ELSE {}) ELSE ins[kk].drops
                                IN  Cardinality(ins[kk].post[e.t] \ dr)], Len(e.lows))
-            a2 == IF changed \/ PrevIsNil(a1) THEN [a1 EXCEPT !.cs = IF maxDocs = 0 THEN 0 ELSE ChunkSize(newCard, maxDocs)] ELSE a1
+            a2 == IF changed \/ (PrevIsNil(a1) /\ Mut # "noNilCard") THEN [a1 EXCEPT !.cs = IF maxDocs = 0 THEN 0 ELSE ChunkSize(newCard, maxDocs)] ELSE a1
             ds == SortSet(ins[k].post[e.t] \ ins[k].drops)
             add == [i \in 1..Len(ds) |-> [d |-> NewNum(ins, k, ds[i]), fr |-> FreqOf(ds[i]), nm |-> NormOf(k, ds[i]), hl |-> ins[k].hl]]
             a3 == [a2 EXCEPT !.hits = a2.hits \o add,
